@@ -1623,6 +1623,19 @@ class ObservedCompileWiring(ObservedCompileFinal):
             [('the current node is not stochastic', z3.Not(self._st(s)(cur0)))] + \
             self._wiring(s, lambda x: z3.Or(done(x), x == cur0), lambda x, p: z3.Or(done(x), z3.And(x == cur0, vis(p))))
 
+    # the rejection clause is the business of contract ObservedCompileFinal: here the final loops only have to leave the net alone
+    def _inv2(self, s, l):
+        return [('the compiled net is not modified by the check', z3.BoolVal(s.C.edge is l.entry.c.edge and s.C.node is l.entry.c.node))]
+
+    def _inv3(self, s, l):
+        return [('the compiled net is not modified by the check', z3.BoolVal(s.C.edge is s.rt.loopstate[2]['entry'].c.edge))]
+
+    def raises(self, s):
+        return {'ValueError': z3.BoolVal(True)}
+
+    def iff_raises(self, s):
+        return []
+
     def ensures(self, s, result):
         S = s.s0
         return ObservedCompileFinal.ensures(self, s, result) + self._main(s, s.rt.loopstate[2]['head'], lambda x: S.node(x))[:1] + \
@@ -1806,8 +1819,17 @@ class ExecGraph(CGraph):
         vc = cx.vc
         s = vc._s
         present = s.h0.has(s.g0.gref, cx.lit('_executor_cache'))
+        mode = getattr(vc._contract_mode, 'mode', None) if hasattr(vc, '_contract_mode') else None
+        if mode is not None:        # case contracts (run as parallel jobs): no cache | cache without / with a stored sort order (miss) | hit
+            vc.assume(present if mode != 'no cache' else z3.Not(present))
         if vc.branch(present):
             s.cache = CacheProxy(cx, True)
+            if mode == 'miss, no sort order cached':
+                vc.assume(z3.Not(s.cache.has_sort), z3.Not(s.cache.hit))
+            elif mode == 'miss, sort order cached':
+                vc.assume(s.cache.has_sort, z3.Not(s.cache.hit))
+            elif mode == 'hit':
+                vc.assume(s.cache.hit)
             vc.assume(z3.Implies(s.cache.has_sort, topo_listing(cx.th, s.g0, s.cache.sort)))        # cache_ok (representation invariant of the cache, assumed)
         else:
             if default != {}:
@@ -1835,7 +1857,11 @@ class GetExecutionOrder(C03Contract):
     lits = ('operation', 'output', 'outputs', '_executor_cache', '?other0')
     refs = 10
 
+    def __init__(self, mode):
+        self.mode = self.label = mode
+
     def setup(self, vc):
+        vc._contract_mode = self
         s = self.base(vc, ExecGraph)
         cx, th = s.cx, s.th
         s.anc = AncSpec(cx, dep_edge(th, s.g0, s.h0), 'anc_dep')
@@ -2064,7 +2090,7 @@ class LemmaExecSemStep(LemmaSetup):
         return [('exec_sem step: the output of x equals its dataflow meaning sem(x)', s.out_x == s.sem(s.x))]
 
 
-CONTRACTS = [Run(), Execute(), GetExecutionOrder(), OutputCompile(), AdditionalNodesCompile(), NbunchAncestors(), ReduceCompile(),
+CONTRACTS = [Run(), Execute()] + [GetExecutionOrder(m) for m in ('no cache', 'miss, no sort order cached', 'miss, sort order cached', 'hit')] + [ OutputCompile(), AdditionalNodesCompile(), NbunchAncestors(), ReduceCompile(),
              MakeObservedCopy('copy'), MakeObservedCopy('operation'), ObservedCompileFinal(), ObservedCompileWiring(), ObservedLoad(), AdditionalNodesLoad(),
              LemmaPackUnique(), LemmaExecSemStep()]
 
